@@ -476,6 +476,10 @@ def patch_rank(ctx, lib, gl, names=None, kinds=("mass", "thermal-K", "elastic-K"
 
 
 def run(ctx):
+    from . import c11 as _c11s
+
+    # 'M carries the mass rho * measure' after ANY change of a parameter: the parameter descriptors raise Need_Update on every assignment
+    ctx.attempt(lambda: _c11s.descriptor_rule(ctx, ctx.rule('R2.14', 'parameter descriptors (rho, thickness, moduli): every assignment raises Need_Update on the owner, also a tiny change and an array edited in place and assigned again; __get__ hands out a copy', min_instances=2)))
     from . import e2e_rules as _e2e
 
     ctx.attempt(_e2e.operators_rule, ctx, 'R2.E1')
